@@ -9,6 +9,7 @@ import argparse
 import importlib
 import json
 import os
+import signal
 import sys
 import time
 import traceback
@@ -17,6 +18,14 @@ import warnings
 warnings.filterwarnings("ignore")
 import logging  # noqa: E402
 logging.disable(logging.CRITICAL)
+
+
+class _CaseTimeout(Exception):
+    pass
+
+
+def _on_alarm(signum, frame):
+    raise _CaseTimeout()
 
 
 def main():
@@ -35,6 +44,7 @@ def main():
         print("RUNTIME-JSON " + json.dumps(out))
         return
     budget = getattr(mod, "BUDGET_S", {"quick": 60, "thorough": 600})[args.tier]
+    case_limit = getattr(mod, "CASE_TIMEOUT_S", {"quick": 120, "thorough": 600})[args.tier]
     for name, ch in mod.CHECKS.items():
         if args.only and args.only != name:
             continue
@@ -50,11 +60,22 @@ def main():
                     res["exhausted"] = False
                     break
                 res["cases"] += 1
+                # per case watchdog: a case whose symbolic processing does not
+                # finish in time is skipped (recorded, neither pass nor failure)
+                limit = int(ch.get("case_timeout_s", case_limit))
+                signal.signal(signal.SIGALRM, _on_alarm)
+                signal.alarm(limit)
                 try:
                     ok, detail = ch["check"](case)
+                except _CaseTimeout:
+                    res["timeouts"] = res.get("timeouts", 0) + 1
+                    res["exhausted"] = False
+                    continue
                 except Exception as e:
                     ok, detail = False, "exception: " + repr(e) + " " + \
                         traceback.format_exc(limit=4)
+                finally:
+                    signal.alarm(0)
                 if not ok:
                     res["failures_n"] += 1
                     if len(res["failures"]) < args.max_failures:
